@@ -1,7 +1,7 @@
 (* C12 -- entry points evaluated by py/checks/C12.py with vm_compute.
    Definitions only; depends on no proof file. *)
 From Coq Require Import ZArith List Bool String.
-From PyRTL Require Import IO.BlifSyntax IO.BlifSem Gen.BlifTables IO.BlifImport IO.Iscas.
+From PyRTL Require Import IO.BlifSyntax IO.BlifSem Gen.BlifTables Gen.BlifNames IO.BlifImport IO.BlifLow IO.Iscas.
 Import ListNotations.
 Open Scope Z_scope.
 
@@ -56,6 +56,23 @@ Definition blif_case (fuel : nat) (lib : list (Z * model)) (top : model)
    end,
    match import_blif fuel lib top with
    | Some c => Some (c_all_def fuel c, map (merge_outs ogroups) (c_run fuel c (c_init c) fi))
+   | None => None
+   end).
+
+(* the same case through the name-resolution model (IO/BlifLow.v): the block over numbered wires.
+   rn: per model id, the pairs (Q, X) of nets such that name(X) = name(Q) ++ reg_suffix *)
+Definition blif_case3 (fuel : nat) (lib : list (Z * model)) (tid : Z) (rn : list (Z * list (sig * sig)))
+           (top : model) (igroups : list (list sig)) (ogroups : list (list nat)) (inss : list (list Z))
+  : option (bool * list (list Z)) * option (bool * list (list Z)) * option (bool * list (list Z)) :=
+  (blif_case fuel lib top igroups ogroups inss,
+   match low_import fuel (regname_of rn) lib tid top with
+   | Some c =>
+       let fi := map (fun vs =>
+                        let nv := ins_of_ports igroups vs in
+                        slookup (map (fun p => (snd p, slookup nv (fst p)))
+                                     (combine (minputs top) (c_inputs c)))) inss in
+       let f3 := (3 * fuel + 6)%nat in
+       Some (c_all_def f3 c, map (merge_outs ogroups) (c_run f3 c (c_init c) fi))
    | None => None
    end).
 
